@@ -127,6 +127,7 @@ type Engine struct {
 	Sched       []smt.Term // schedule / memory-consistency constraints of the composition
 	Finished    smt.Term
 	Rounds      int
+	GoPolicy    string // "" (unsupported) | "skip"
 	Stats       ComposeStats
 	ThreadsDone []*Thread
 }
